@@ -133,11 +133,11 @@ func (v *DataModelView) DrawRelation(
 		attrType := entity.AttrDefs[attrName]
 		var s string
 		if typeRef := attrType.GetTypeRef(); typeRef != nil {
+			// a reference is usually Table.field, but may name just a type
 			targetEntity := v.UniqueVarForAppName(typeRef.GetRef().Path[0])
-			s = fmt.Sprintf("+ %s : **%s.%s** <<FK>>\n",
+			s = fmt.Sprintf("+ %s : **%s** <<FK>>\n",
 				attrName,
-				typeRef.GetRef().Path[0],
-				typeRef.GetRef().Path[1])
+				strings.Join(typeRef.GetRef().Path, "."))
 			if _, exists := relationshipMap[encEntity]; !exists {
 				relationshipMap[encEntity] = map[string]RelationshipParam{}
 			}
